@@ -2,12 +2,22 @@
 
 A read is a dict (the oracle only ever sees this dict); `to_pysam` builds the pysam.AlignedSegment from it.
 The space: every read that differs from the plain good read BASE in at most 2 attributes (ALTS), minus incoherent
-combinations (an unpaired read has no mate bits; an unmapped read has no CIGAR / MAPQ / proper bit).
+combinations (an unpaired read has no mate bits; an unmapped read has no CIGAR / MAPQ / proper bit / secondary bit).
 Option sets: all assignments of DIMS within a given distance of the default (distance = number of changed options).
+
+CORE_ALTS / CORE_DIMS name the letters of the first version of this check; the thorough tier still takes the FULL
+product of the core option values over the core reads, the letters added later are enumerated within a distance bound
+(see props/c11.py).  Letters added by the audit:
+  reads    contig chr3 (absent from blacklist and BED), positions that touch a blacklist interval / BED region from
+           outside (390 ends where both start, 500 starts where both end) and from inside (400, 490), secondary /
+           supplementary alignments, an empty XA tag, a float by-value value, feature values holding the default / another
+           delimiter, the barcode-index tag under its old and new name (BI / bi / both), the bin tag DS (incl. 0)
+  options  --splitFeatures, -featureDelimiter, feature modes: one joined tag, tag / alias / attribute lookups (joined and
+           single), joined + -bin
 """
 import itertools
 
-CONTIGS = [('chr1', 1000), ('chr2', 1000)]
+CONTIGS = [('chr1', 1000), ('chr2', 1000), ('chr3', 1000)]      # chr3: in no blacklist interval, in no BED region
 CONTIG_NAMES = [c for c, _ in CONTIGS]
 BED = [('chr1', 100, 200, 'regA'), ('chr1', 400, 500, 'regB'), ('chr2', 100, 200, 'regC')]
 # deliberately NOT coordinate sorted (a BED file need not be): decoy intervals far from every read precede and follow the hitting one
@@ -15,7 +25,9 @@ BLACKLIST = {'chr1': [(900, 950), (400, 500), (10, 20)], 'chr2': [(880, 890), (6
 
 BASE = {'role': 'R1', 'qcfail': False, 'dup': False, 'RR': False, 'mapq': 60, 'proper': True, 'mate_unmapped': False,
         'unmapped': False, 'cigar': '10M', 'NM': 0, 'XA': None, 'NH': None, 'mp': 'unique', 'SM': 'A', 'XT': 'g1',
-        'RC': 1, 'contig': 0, 'pos': 120}
+        'RC': 1, 'contig': 0, 'pos': 120, 'aln': 'primary', 'bi': 'BI', 'DS': 120}
+BI_VALUE, bi_VALUE = 7, 8       # values of the BI / bi tag where present (rd['bi'] in BI | bi | both)
+BIN = 100                       # -bin of the feature mode joined+bin
 
 # simplest alternatives first
 ALTS = [
@@ -29,22 +41,32 @@ ALTS = [
     ('unmapped', [True]),
     ('cigar', ['4M1I5M', '5M1D5M', '2S8M']),
     ('NM', [1, 2, None]),
-    ('XA', ['chr2,+3,10M,0;', 'chr1_alt,+3,10M,0;', 'chr1_alt,+3,10M,0;chr2,-7,10M,1;']),
+    ('XA', ['chr2,+3,10M,0;', 'chr1_alt,+3,10M,0;', 'chr1_alt,+3,10M,0;chr2,-7,10M,1;', '']),   # '': present but empty
     ('NH', [1, 3]),
     ('mp', ['bad', None]),
     ('SM', ['B']),
-    ('XT', ['g2', 0]),      # 0: a present but falsy feature value
-    ('RC', [3]),
-    ('contig', [1]),
-    ('pos', [420, 700]),
+    ('XT', ['g2', 0, 'g1,g2', 'g3;g4']),      # 0: a present but falsy feature value; values holding a delimiter
+    ('RC', [3, 2.5]),
+    ('contig', [1, 2]),
+    # 420 / 700: inside BED regB + blacklist (chr1) / inside a blacklist interval (chr2); 390 and 500: outside, touching
+    # chr1:400-500 (blacklist interval and BED region) on either side; 400 and 490: inside, touching its two ends
+    ('pos', [420, 700, 390, 500, 400, 490]),
+    ('aln', ['secondary', 'supplementary']),
+    ('bi', ['bi', 'both']),
+    ('DS', [0, 250]),
 ]
+CORE_ALTS = {'role': ['R2', 'single'], 'qcfail': [True], 'dup': [True], 'RR': [True], 'mapq': [0, 29, 30],
+             'proper': [False], 'mate_unmapped': [True], 'unmapped': [True], 'cigar': ['4M1I5M', '5M1D5M', '2S8M'],
+             'NM': [1, 2, None], 'XA': ['chr2,+3,10M,0;', 'chr1_alt,+3,10M,0;', 'chr1_alt,+3,10M,0;chr2,-7,10M,1;'],
+             'NH': [1, 3], 'mp': ['bad', None], 'SM': ['B'], 'XT': ['g2', 0], 'RC': [3], 'contig': [1],
+             'pos': [420, 700]}
 
 
 def _coherent(changes):
     ch = dict(changes)
     if ch.get('role') == 'single' and ('proper' in ch or 'mate_unmapped' in ch):
         return False
-    if 'unmapped' in ch and ('mapq' in ch or 'cigar' in ch or 'proper' in ch):
+    if 'unmapped' in ch and ('mapq' in ch or 'cigar' in ch or 'proper' in ch or 'aln' in ch):
         return False
     if 'mate_unmapped' in ch and 'proper' in ch:
         return False
@@ -77,6 +99,8 @@ def all_reads(max_changes=2):
             rd[a] = v
         _normalise(rd)
         rd['ri'] = f'r{i:04d}'
+        rd['core'] = all(v in CORE_ALTS.get(a, ()) for a, v in c)
+        rd['changed'] = [a for a, _ in c]
         out.append(rd)
     return out
 
@@ -89,12 +113,24 @@ def never_ambiguous(rd):
         n = len([e for e in rd['XA'].split(';') if e]) + 1
         if n != rd['NH']:
             return False
+    # a read lying partly in a blacklist interval / BED region (a deletion makes it one base longer)
+    if not rd['unmapped']:
+        from oracles.c11_oracle import ref_span
+        a, b = rd['pos'], rd['pos'] + ref_span(rd['cigar'])
+        cname = CONTIG_NAMES[rd['contig']]
+        ivs = list(BLACKLIST.get(cname, ())) + [(s, e) for c, s, e, _ in BED if c == cname]
+        if any(a < e and s < b and not (s <= a and b <= e) for s, e in ivs):
+            return False
     return True
 
 
 def to_pysam(rd, hdr):
     from gen import c10_counttable as G
-    tags = [('SM', rd['SM']), ('XT', rd['XT']), ('RC', rd['RC']), ('ri', rd['ri'])]
+    tags = [('SM', rd['SM']), ('XT', rd['XT']), ('RC', rd['RC']), ('ri', rd['ri']), ('DS', rd['DS'])]
+    if rd['bi'] in ('BI', 'both'):
+        tags.append(('BI', BI_VALUE))
+    if rd['bi'] in ('bi', 'both'):
+        tags.append(('bi', bi_VALUE))
     if rd['NM'] is not None:
         tags.append(('NM', rd['NM']))
     if rd['XA'] is not None:
@@ -109,58 +145,132 @@ def to_pysam(rd, hdr):
     return G.mk_read(hdr, 'q' + rd['ri'], contig_index=rd['contig'], pos=rd['pos'], cigar=rd['cigar'], mapq=rd['mapq'],
                      tags=tags, paired=paired, read2=(rd['role'] == 'R2'), proper=(rd['proper'] if paired else False),
                      mate_unmapped=rd['mate_unmapped'], unmapped=rd['unmapped'], qcfail=rd['qcfail'],
-                     duplicate=rd['dup'], reverse=(rd['role'] == 'R2'), mate_pos=rd['pos'])
+                     duplicate=rd['dup'], reverse=(rd['role'] == 'R2'), mate_pos=rd['pos'],
+                     secondary=(rd['aln'] == 'secondary'), supplementary=(rd['aln'] == 'supplementary'))
 
 
 # ------------------------------------------------------------------------------------------------ options
 
 BOOLS = ['r1only', 'r2only', 'filterMP', 'proper_pairs_only', 'no_indels', 'no_softclips', 'filterXA', 'dedup',
          'divideMultimapping', 'doNotDivideFragments', 'blacklist']
+# feature modes (what they put on the command line: FEATURE_ARGS below)
+FEATURE_MODES = ['joined', 'single', 'joined+byValue', 'joined1', 'joined+lookup', 'single+lookup', 'joined+bin']
 DIMS = [(b, [False, True]) for b in BOOLS] + [('minMQ', [0, 30]), ('max_base_edits', [None, 1, 0]),
-                                              ('features', ['joined', 'single', 'joined+byValue'])]
-DEFAULT = {d: vals[0] for d, vals in DIMS}
-SHARD_DIMS = BOOLS[:5]          # level-1 shards fix these five booleans
+                                              ('features', FEATURE_MODES),
+                                              # ONE dimension for (--splitFeatures, -featureDelimiter): a single step from
+                                              # the default reaches the non-default delimiter in use
+                                              ('split', [(False, ','), (True, ','), (True, ';'), (False, ';')])]
+COMPOUND = {'split': ('splitFeatures', 'featureDelimiter')}
+OPT_KEYS = [k for d, _ in DIMS for k in COMPOUND.get(d, (d,))]
+
+
+def _expand(o):
+    """{dimension: value} -> the option set as the check and the oracle use it (compound dimensions spread out)"""
+    out = {}
+    for d, _ in DIMS:
+        if d in COMPOUND:
+            out.update(zip(COMPOUND[d], o[d]))
+        else:
+            out[d] = o[d]
+    return out
+
+
+def _dim_value(opt, d):
+    return tuple(opt[k] for k in COMPOUND[d]) if d in COMPOUND else opt[d]
+
+
+DEFAULT = _expand({d: vals[0] for d, vals in DIMS})
+
+# the option values of the first version of this check (their FULL product is still taken in the thorough tier)
+CORE_VALUES = {'features': ['joined', 'single', 'joined+byValue'], 'splitFeatures': [False], 'featureDelimiter': [',']}
+
+
+def is_core(opt):
+    return all(opt[d] in vals for d, vals in CORE_VALUES.items())
+
+
+def generated(opt):
+    """--splitFeatures with -byValue is refused by the program in so many words (NotImplementedError 'By value is not
+    implemented for --splitFeatures'): not part of the space"""
+    return not (opt['splitFeatures'] and opt['features'] == 'joined+byValue')
 
 
 def distance(opt):
-    return sum(1 for d, vals in DIMS if opt[d] != vals[0])
+    return sum(1 for d, vals in DIMS if _dim_value(opt, d) != vals[0])
 
 
-def option_sets(max_distance, fixed=None):
-    """every option set within max_distance of the default (optionally with some options fixed); simplest first"""
+def option_sets(max_distance, fixed=None, core_max_distance=None):
+    """every option set within max_distance of the default (optionally with some options fixed), and every CORE option
+    set within core_max_distance (>= max_distance) if given; simplest first"""
     fixed = fixed or {}
+    core_max_distance = max_distance if core_max_distance is None else core_max_distance
     free = [(d, vals) for d, vals in DIMS if d not in fixed]
-    base_d = sum(1 for d, v in fixed.items() if v != DEFAULT[d])
+    first = {d: vals[0] for d, vals in DIMS}
+    base_d = sum(1 for d, v in fixed.items() if v != first[d])
     out = []
     for combo in itertools.product(*[range(len(vals)) for _, vals in free]):
         dist = base_d + sum(1 for i in combo if i)
-        if dist > max_distance:
+        if dist > core_max_distance:
             continue
         opt = dict(fixed)
         for (d, vals), i in zip(free, combo):
             opt[d] = vals[i]
+        opt = _expand(opt)
+        if dist > max_distance and not is_core(opt):
+            continue
+        if not generated(opt):
+            continue
         out.append((dist, opt))
     out.sort(key=lambda t: t[0])
-    return [{d: o[d] for d, _ in DIMS} for _, o in out]
+    return [{k: o[k] for k in OPT_KEYS} for _, o in out]
+
+
+# feature mode -> (joined?, tag list on the command line, -byValue, -bin)
+FEATURE_ARGS = {
+    'joined': (True, 'XT,chrom', None, None),
+    'single': (False, 'XT,chrom', None, None),
+    'joined+byValue': (True, 'XT,chrom', 'RC', None),
+    'joined1': (True, 'XT', None, None),                              # a joined key of ONE tag
+    'joined+lookup': (True, 'BI,bi,mapping_quality,XT', None, None),     # tag / renamed tag both ways / read attribute
+    'single+lookup': (False, 'bi,mapping_quality', None, None),
+    'joined+bin': (True, 'XT', None, BIN),                            # the bin tag (DS) is appended by the program
+}
+
+
+def feature_tags(opt):
+    """(joinFeatures, feature tag list) the way create_count_table derives them from the command line: the by-value tag
+    and the bin tag are appended to the joined tags when not listed"""
+    joined, tags, by_value, bin_ = FEATURE_ARGS[opt['features']]
+    tags = tags.split(',')
+    if joined and by_value is not None and by_value not in tags:
+        tags.append(by_value)
+    if bin_ is not None and 'DS' not in tags:
+        tags.append('DS')
+    return joined, tags
 
 
 def feature_args(opt):
-    """command-line arguments of the three feature modes"""
-    if opt['features'] == 'single':
-        return {'featureTags': 'XT,chrom', 'joinedFeatureTags': None, 'byValue': None}
-    if opt['features'] == 'joined':
-        return {'featureTags': None, 'joinedFeatureTags': 'XT,chrom', 'byValue': None}
-    return {'featureTags': None, 'joinedFeatureTags': 'XT,chrom', 'byValue': 'RC'}
+    """command-line arguments of the feature modes"""
+    joined, tags, by_value, bin_ = FEATURE_ARGS[opt['features']]
+    return {'featureTags': None if joined else tags, 'joinedFeatureTags': tags if joined else None,
+            'byValue': by_value, 'bin': bin_}
 
 
-def make_args(opt, **extra):
+def make_args(opt, level1=False, **extra):
     from gen import c10_counttable as G
     kw = {k: opt[k] for k in BOOLS if k != 'blacklist'}
     kw['minMQ'] = opt['minMQ']
     kw['max_base_edits'] = opt['max_base_edits']
+    kw['splitFeatures'] = opt['splitFeatures']
+    kw['featureDelimiter'] = opt['featureDelimiter']
     kw.update(feature_args(opt))
     kw.update(extra)
-    return G.default_args(**kw)
+    ns = G.default_args(**kw)
+    if level1 and ns.bin is not None:
+        # what create_count_table sets up before it calls assignReads
+        ns.sliding = ns.bin
+        ns.ref_lengths = dict(CONTIGS)
+    return ns
 
 
 # the same blacklist keyed by contig INDEX: the form the oracle (which only knows abstract reads) uses
